@@ -193,6 +193,51 @@ pub fn lit(v: &Val) -> J {
     }
 }
 
+/// The ids of every node of the public AST, in preorder (entries of maps / structs included).
+pub fn ast_ids(e: &IdedExpr, out: &mut Vec<u64>) {
+    out.push(e.id);
+    match &e.expr {
+        Expr::Unspecified | Expr::Literal(_) | Expr::Ident(_) => {}
+        Expr::Select(s) => ast_ids(&s.operand, out),
+        Expr::Call(c) => {
+            if let Some(t) = &c.target {
+                ast_ids(t, out);
+            }
+            for a in &c.args {
+                ast_ids(a, out);
+            }
+        }
+        Expr::List(l) => {
+            for x in &l.elements {
+                ast_ids(x, out);
+            }
+        }
+        Expr::Map(m) => {
+            for en in &m.entries {
+                out.push(en.id);
+                match &en.expr {
+                    EntryExpr::MapEntry(me) => { ast_ids(&me.key, out); ast_ids(&me.value, out); }
+                    EntryExpr::StructField(sf) => ast_ids(&sf.value, out),
+                }
+            }
+        }
+        Expr::Comprehension(c) => {
+            for x in [&c.iter_range, &c.accu_init, &c.loop_cond, &c.loop_step, &c.result] {
+                ast_ids(x, out);
+            }
+        }
+        Expr::Struct(s) => {
+            for en in &s.entries {
+                out.push(en.id);
+                match &en.expr {
+                    EntryExpr::MapEntry(me) => { ast_ids(&me.key, out); ast_ids(&me.value, out); }
+                    EntryExpr::StructField(sf) => ast_ids(&sf.value, out),
+                }
+            }
+        }
+    }
+}
+
 /// The public AST, verbatim minus ids.
 pub fn ast(e: &IdedExpr) -> J {
     match &e.expr {
